@@ -214,7 +214,10 @@ def classify(entry):
         if p['messages'] and any(m.startswith('ERROR') for m in p['messages']): statuses.add('error'); continue
         statuses.add(p['status'])
         if p['status'] == 'failure' and p['failed']: viol = r
-    if viol is not None: return 'violated', viol
+    if viol is not None:
+        if all('unwinding assertion' in (f['description'] or '') for f in viol['parsed']['failed']):
+            return 'broken', 'unwinding bound too small: ' + '; '.join((f['description'] or '') + ' ' + str(f['property']) for f in viol['parsed']['failed'])
+        return 'violated', viol
     if statuses != {'success'}: return 'broken', f"verify runs: {sorted(statuses)} " + '; '.join((r['parsed']['messages'] or [''])[0] for r in ver)[:300]
     if Q.witness:
         if not wit: return 'broken', 'witness did not run'
